@@ -122,15 +122,29 @@ class Context:
                 from .inline_helpers import inline_new_helpers, inventory
                 known = inventory().get(rel)
                 if known is not None and os.environ.get("VERIF_NO_INLINE") != "1":
-                    self.cache["inlined_helpers:" + rel] = inline_new_helpers(mod, known)
+                    from .inline_helpers import inline_new_generators
+                    n_gen = inline_new_generators(mod, known)
+                    self.cache["inlined_helpers:" + rel] = inline_new_helpers(mod, known) + n_gen
+                from .inline_helpers import inline_new_module_constants, module_names
+                if module_names().get(rel) is not None and os.environ.get("VERIF_NO_INLINE") != "1":
+                    self.cache["inlined_constants:" + rel] = inline_new_module_constants(mod, module_names()[rel])
                 from .pyutil import unroll_literal_dispatch_inplace, loops_to_comprehensions_inplace, merge_nested_ifs_inplace
                 unroll_literal_dispatch_inplace(mod)
+                if os.environ.get("VERIF_NO_ANYLOOP") != "1":
+                    from .pyutil import any_guard_to_loops_inplace
+                    self.cache["anyloop:" + rel] = any_guard_to_loops_inplace(mod)
                 if os.environ.get("VERIF_NO_IFMERGE") != "1":
                     self.cache["ifmerge:" + rel] = merge_nested_ifs_inplace(mod)
                 if os.environ.get("VERIF_NO_LOOPCOMP") != "1":
                     self.cache["loopcomp:" + rel] = loops_to_comprehensions_inplace(mod)
                 normalise_polarity(mod)
                 inline_temporaries(mod)
+                if os.environ.get("VERIF_NO_IFEXP") != "1":
+                    # after the temporaries: `t = A if c else B; self.x = t` is first `self.x = A if c else B`, then the statement form
+                    from .pyutil import ifexp_assign_to_if_inplace
+                    self.cache["ifexp:" + rel] = ifexp_assign_to_if_inplace(mod)
+                    if self.cache["ifexp:" + rel]:
+                        normalise_polarity(mod)
                 if known is not None and self.cache.get("inlined_helpers:" + rel):
                     from .inline_helpers import drop_self_assignments, tidy_flags
                     drop_self_assignments(mod)
@@ -164,6 +178,29 @@ class Context:
             raise AnalysisError(rule, "anchor function %s:%s not found" % (rel, qualname))
         self.functions_analysed.add("%s:%s" % (rel, qualname))
         return n
+
+    def new_callees(self, rel: str, fn: ast.FunctionDef, depth: int = 3) -> List[ast.FunctionDef]:
+        """functions of `rel` that the reference tree does not have (helpers split off later that could not be inlined: they define
+        nested functions, loop with returns, ...) and that `fn` calls, transitively — a rule anchored in `fn` looks there as well"""
+        from .inline_helpers import inventory, qualnames
+        known = inventory().get(rel)
+        if known is None:
+            return []
+        new = {q: f for q, f in qualnames(self.module(rel)).items() if q not in known}
+        out, todo, seen = [], [fn], set()
+        for _ in range(depth):
+            nxt = []
+            for g in todo:
+                for c in ast.walk(g):
+                    if isinstance(c, ast.Call):
+                        nm = c.func.attr if isinstance(c.func, ast.Attribute) else c.func.id if isinstance(c.func, ast.Name) else None
+                        for q, f in new.items():
+                            if q.split(".")[-1] == nm and id(f) not in seen and f is not fn:
+                                seen.add(id(f))
+                                out.append(f)
+                                nxt.append(f)
+            todo = nxt
+        return out
 
     def cls(self, rel: str, qualname: str, rule: str) -> ast.ClassDef:
         n = self.find(rel, qualname)
